@@ -40,9 +40,12 @@ Predicted(pre, e) ==
       [] e.ev = "Tick"     -> DoTick(pre)
       [] e.ev = "LoopPoll" -> DoLoopPoll(pre)
       [] e.ev = "LoopWake" -> DoLoopWake(pre)
+      [] e.ev = "LoopPollHold" -> DoLoopPollHold(pre)
+      [] e.ev = "LoopWakeHold" -> DoLoopWakeHold(pre)
+      [] e.ev = "LoopCrit" -> DoLoopCrit(pre)
       [] OTHER             -> [pre EXCEPT !.out = <<>>]
 
-TStep == /\ l <= Len(Trace) /\ Trace[l].ev \in {"Announce", "AnnounceSplit", "AnnounceHold", "AnnounceResume", "RegisterLate", "Arrive", "Tick", "LoopPoll", "LoopWake", "Skip"} /\ l' = l + 1
+TStep == /\ l <= Len(Trace) /\ Trace[l].ev \in {"Announce", "AnnounceSplit", "AnnounceHold", "AnnounceResume", "RegisterLate", "Arrive", "Tick", "LoopPoll", "LoopWake", "LoopPollHold", "LoopWakeHold", "LoopCrit", "Skip"} /\ l' = l + 1
          /\ LET e    == Trace[l]
                 pre  == State
                 pred == Predicted(pre, e)
@@ -53,7 +56,7 @@ TStep == /\ l <= Len(Trace) /\ Trace[l].ev \in {"Announce", "AnnounceSplit", "An
                          out |-> o, pulls |-> AddPulls([h \in Hashes |-> Recent(pre.pulls[h], e.now)], o, e.now),
                          regs |-> [h \in Hashes |-> IF ActiveOf(e.active)[h] # None /\
                                                        (ActiveOf(e.active)[h] # pre.active[h] \/
-                                                        (e.ev \in {"LoopPoll", "LoopWake", "Announce", "AnnounceResume"} /\ \E i \in 1..Len(o) : o[i].h = h) \/
+                                                        (e.ev \in {"LoopPoll", "LoopWake", "LoopCrit", "Announce", "AnnounceResume"} /\ \E i \in 1..Len(o) : o[i].h = h) \/
                                                         (e.ev = "RegisterLate" /\ e.h = h))
                                                     THEN <<ActiveOf(e.active)[h]>> ELSE pre.regs[h]],
                          late |-> [h \in Hashes |-> IF \E i \in 1..Len(e.late) : e.late[i][1] = h
